@@ -8,8 +8,10 @@ EXTENDS Integers, Sequences, FiniteSets, TLC, Json
 
 Days  == 0..6            \* Sunday = 0
 Entry(d, s, e) == [day |-> d, s |-> s, e |-> e]
-\* an instant of local time: weekday, hour, minute
-Instants == [day : Days, h : 0..23, m : {0, 30, 59}]
+\* an instant of local time: weekday, hour, minute - and the offset of the local zone from UTC in minutes, which does
+\* not matter: the entries speak of the local clock
+Zones == {0, 300, -420, 345}
+Instants == [day : Days, h : 0..23, m : {0, 30, 59}, z : Zones]
 Match(en, t) == en.day = t.day /\ en.s <= t.h /\ t.h < en.e
 Allowed(list, t) == \E i \in 1..Len(list) : Match(list[i], t)
 
@@ -18,10 +20,10 @@ Pool == { Entry(1, 11, 13), Entry(1, 0, 24), Entry(2, 18, 24), Entry(5, 23, 24),
           Entry(3, 9, 9), Entry(6, 0, 12), Entry(0, 12, 24) }
 Lists == {<<e>> : e \in Pool} \cup {<<a, b>> : a, b \in Pool}
 \* instants around every boundary of the list, on the entry's day and the days next to it
-Around(en) == { [day |-> d, h |-> h, m |-> m] :
+Around(en) == { [day |-> d, h |-> h, m |-> m, z |-> z] :
                   d \in {en.day, (en.day + 1) % 7, (en.day + 6) % 7},
                   h \in {x \in {en.s - 1, en.s, en.e - 1, en.e, 0, 23} : x \in 0..23},
-                  m \in {0, 59} }
+                  m \in {0, 59}, z \in Zones }
 Probes(list) == UNION { Around(list[i]) : i \in 1..Len(list) }
 
 (* ---- the textual form: {day-of-week}/{hour_start}-{hour_end} ---- *)
@@ -45,7 +47,7 @@ VARIABLES mode, list, t, text
 vars == <<mode, list, t, text>>
 NoText == [name |-> "", sep |-> "", a |-> "", dash |-> "", b |-> ""]
 InitMatch == mode = "match" /\ list \in Lists /\ t \in Probes(list) /\ text = NoText
-InitParse == mode = "parse" /\ list = <<>> /\ t = [day |-> 0, h |-> 0, m |-> 0] /\ text \in Texts
+InitParse == mode = "parse" /\ list = <<>> /\ t = [day |-> 0, h |-> 0, m |-> 0, z |-> 0] /\ text \in Texts
 Init == InitMatch \/ InitParse
 Next == FALSE /\ UNCHANGED vars
 \* the whole day allows every instant of that day and none of another; an empty range allows nothing;
@@ -54,6 +56,7 @@ WholeDay   == mode = "match" /\ Len(list) = 1 /\ list[1].s = 0 /\ list[1].e = 24
 EmptyRange == mode = "match" /\ Len(list) = 1 /\ list[1].s = list[1].e => ~Allowed(list, t)
 EndExcluded == mode = "match" /\ Len(list) = 1 /\ t.h = list[1].e => ~Allowed(list, t)
 MinutesIrrelevant == mode = "match" => \A m \in {0, 30, 59} : Allowed(list, [t EXCEPT !.m = m]) = Allowed(list, t)
+ZoneIrrelevant == mode = "match" => \A z \in Zones : Allowed(list, [t EXCEPT !.z = z]) = Allowed(list, t)
 UnionOfEntries == mode = "match" /\ Len(list) = 2 => (Allowed(list, t) <=> Allowed(<<list[1]>>, t) \/ Allowed(<<list[2]>>, t))
 Emit == IF mode = "match" THEN PrintT(ToJson([kind |-> "match", list |-> list, t |-> t, allowed |-> Allowed(list, t)]))
         ELSE PrintT(ToJson([kind |-> "parse", text |-> text.name \o text.sep \o text.a \o text.dash \o text.b, parse |-> Parse(text)]))
